@@ -597,24 +597,38 @@ def rk_decode(kind, rk):
     x = struct.unpack("<d", struct.pack("<Q", (rk & 0xFFFFFFFC) << 32))[0]
     return ("F", f64bits(x / 100.0 if d100 else x))
 
+# single-byte code pages of BIFF5 files (Windows ANSI pages, Mac Roman) and the Python codec of each
+BIFF5_PAGES = [(1252, "cp1252"), (1251, "cp1251"), (1250, "cp1250"), (1253, "cp1253"), (10000, "mac_roman"),
+               (932, "cp932"), (936, "gbk")]        # double-byte pages: one or two bytes per character (XLS-6b)
+
 def run_biff_files(ctx, n, tag, kind):
     rng = ctx.rng
     os.makedirs(TMP, exist_ok=True)
     descs, mlines, ilines = [], [], []
     styles_cases = []
-    for k in range(n + 1):
+    for k in range(n + 2 if kind == "xls" else n + 1):
         customs, xfs = gen_table(rng, kind)
         customs = [(i, f if f is not None else ast_string(ctx)) for i, f in customs]
         customs = [(i, f) for i, f in customs if f and len(f) < 250 and all(ord(ch) < 0x10000 for ch in f)]
         is_1904 = rng.choice([None, True, False]) if kind == "xls" else rng.choice([True, False])
         cells, wire = [], []
-        if k == n:
+        if k >= n:
             # former K5 / K1-K3 witnesses: formula cells with a cached number under date styles
             customs = [(164, '"wk_"dd'), (165, "0*d"), (166, "General/"), (167, "[h]:mm")]
             xfs = [14, 22, 164, 165, 166, 167, 0]
+            if k == n + 1:
+                # the BIFF5 witness of audit-2 finding XLS-6a (FORMAT = ifmt, ONE length byte, bytes):
+                # the formats of the audit's reproducer, a plain literal whose length byte is 'd' (100),
+                # 'y' (121) or 'h' (104), and formats whose only date token is their last character
+                customs += [(168, '0" days"'), (169, "yy"), (170, "yyyy-mm-dd"), (171, "0.00"),
+                            (172, '"' + "x" * 98 + '"'), (173, '"' + "x" * 119 + '"'), (174, '0.0"' + "x" * 99 + '"'),
+                            (175, '0.0"wk"d'), (176, '"elapsed "[h]')]
+                xfs += list(range(168, 177))
             for ixfe in range(len(xfs)):
                 bits = f64bits(45000.25)
                 cells.append((ixfe, "fml", bits)); wire.append("%d:%s%d" % (ixfe, "U" if kind == "xls" else "F", bits))
+                if k == n + 1:
+                    cells.append((ixfe, "num", bits)); wire.append("%d:F%d" % (ixfe, bits))
         for _ in range(rng.randrange(1, 8) if k < n else 0):
             ixfe = rng.randrange(0, len(xfs)) if rng.random() < 0.93 else len(xfs) + rng.randrange(0, 2)
             r = rng.random()
@@ -636,7 +650,20 @@ def run_biff_files(ctx, n, tag, kind):
         desc = {"kind": kind, "customs": customs, "xfs": xfs, "is_1904": is_1904, "cells": cells, "id": lid}
         path = os.path.join(TMP, lid + "." + kind)
         if kind == "xls":
-            biffgen_c10.write_xls(path, customs, xfs, is_1904, cells)
+            # a quarter of the xls files as BIFF5 / BIFF7 (`Book` stream; FORMAT = ifmt + byte string
+            # with a one-byte length): the property says "xls", and the style table is the same
+            # logical object (audit-2 finding XLS-6a); the byte strings are those of the CodePage record
+            b5 = None
+            if k == n + 1 or (k < n and rng.random() < 0.25):
+                for cp, codec in rng.sample(BIFF5_PAGES, len(BIFF5_PAGES)):
+                    try:
+                        if all(len(f.encode(codec)) < 256 and f.encode(codec).decode(codec) == f for _, f in customs):
+                            b5 = (cp, codec); break
+                    except (UnicodeEncodeError, UnicodeDecodeError):
+                        pass
+            desc["biff5"] = b5
+            ctx.count("xls:biff5:%s" % (b5[0] if b5 else "no"))
+            biffgen_c10.write_xls(path, customs, xfs, is_1904, cells, biff5=b5)
         else:
             # styles.bin: a random layout of the part around the two tables; cells: short records at random
             L = xlsbstyles.random_layout(rng, customs, xfs) if k < n else xlsbstyles.excel_layout(customs, xfs)
@@ -854,7 +881,8 @@ def replay(ctx, rep):
         cells = [tuple(c) for c in desc["cells"]]
         customs = [tuple(c) for c in desc["customs"]]
         if kind == "xls":
-            biffgen_c10.write_xls(path, customs, desc["xfs"], desc["is_1904"], cells)
+            b5 = desc.get("biff5")
+            biffgen_c10.write_xls(path, customs, desc["xfs"], desc["is_1904"], cells, biff5=tuple(b5) if b5 else None)
         else:
             biffgen_c10.write_xlsb(path, customs, desc["xfs"], desc["is_1904"], cells,
                                    styles=bytes.fromhex(desc["styles"]) if desc.get("styles") else None,
